@@ -134,6 +134,11 @@ def scn_timeouts(ctx):
             ctx.check("never-early", tc >= t_start[i] + T, "cancel of %d at %r, deadline >= %r" % (i, tc, t_start[i] + T))
         late_deadline = t_ret[i] + T
         rg = sp["regime"]
+        if ctx.bounds.get("adversarial"):
+            # computation may take arbitrarily long between two clock reads: only "never early" and
+            # "at most once" are claimed under this clock, promptness and ordering claims are not
+            ctx.reach("adversarial-never-early")
+            continue
         if rg == 5:
             ctx.reach("cancel-refused")
             ctx.check("exactly-one-cancel", len(calls) == 1, "future %d: the delegate refused the cancel; %d attempts were made" % (i, len(calls)))
